@@ -11,6 +11,7 @@ mod refuse;
 mod reader;
 mod slicing;
 mod mergeh;
+mod sinkh;
 
 use serde_json::{json, Value};
 use std::io::{BufRead, BufReader, Write};
@@ -79,6 +80,7 @@ fn main() {
         "reader" => reader::run_case,
         "slicing" => slicing::run_case,
         "merge" => mergeh::run_case,
+        "sink" => sinkh::run_case,
         other => {
             eprintln!("unknown subcommand {}", other);
             std::process::exit(2);
